@@ -2,7 +2,7 @@
 PROPS = {
     "C20": {
         "parts": [{"pkg": "livesim", "test": "TestVerifC20", "shards": {"quick": 8, "thorough": 16}},
-                  {"pkg": "livesim", "test": "TestVerifRaceC20", "race": True, "race_clause": "C20.race", "tiers": ["thorough"], "shards": {"thorough": 4}, "budget_s": {"thorough": 300}}],
+                  {"pkg": "livesim", "test": "TestVerifRaceC20", "race": True, "race_clause": "C20.race", "shards": {"quick": 2, "thorough": 4}, "budget_s": {"quick": 60, "thorough": 300}}],
         "clauses": ["C20.lin", "C20.quota", "C20.race", "C20.seq"],
         "level": "model_checking",
         "rule": "every schedule (preemption bound 2 quick / 3 thorough) of 2-3 client threads + reader (+ clock tick) "
@@ -126,7 +126,7 @@ PROPS = {
         "assumptions": ["mp4ff's DecryptInit/DecryptSegment is the trusted decryptor", "CPIX keys are read from the XML by the harness itself"],
     },
     "C09": {
-        "parts": [{"pkg": "livesim", "test": "TestVerifC09", "gen": True}],
+        "parts": [{"pkg": "livesim", "test": "TestVerifC09", "gen": True, "budget_s": {"quick": 120, "thorough": 1200}}],
         "clauses": ["C09.a", "C09.b", "C09.c", "C09.d", "C09.e", "C09.f", "C09.g"],
         "level": "model_checking",
         "rule": "video+audio representations x ato {seg-1 sample, 3/4, 1/2, 1/4, 1/8 seg} x {clear, eccp_cenc, eccp_cbcs} x start {0,1.7e9} x segment indices {0,1,N-1,N,7N+1} "
